@@ -89,8 +89,10 @@ class GuardCtx:
         if cmp_ is None:
             return False
         lhs, op, rhs = cmp_
-        # pointer comparisons (x != y) say nothing about lengths
+        # pointer and iterator comparisons (x != y, __begin1 != __end1 of a range-for) say nothing about lengths
         if lhs.strip().tc == "ptr" or rhs.strip().tc == "ptr":
+            return False
+        if lhs.strip().tc not in ("int", "float", "bool", "enum") or rhs.strip().tc not in ("int", "float", "bool", "enum"):
             return False
         objs = self.objs(c, len_facets)
         return obj_a in objs and obj_b in objs
